@@ -2,7 +2,7 @@
 // imfill.pattern.cpp + popcount.cpp + pcg), driven through the HAL entry points of device/hal/camera.c
 // (camera_set / get / get_meta / get_image_shape / start / stop / get_frame) on real threads with the real platform.c.
 //
-//   simcam_cfg <histories.txt> <trace.ndjson> <first-history-index> <mis 0|1>
+//   simcam_cfg <histories.txt> <trace.ndjson> <first-history-index> <mis 0|1> [seconds allowed per history, default 20]
 //
 // histories.txt: one history per line
 //     <id> <kind> ; OP ARGS [= 21 expected observables] ; OP ...
@@ -19,7 +19,7 @@
 //   malloc/realloc/free        -> vh_malloc/vh_realloc/vh_free : Alloc/Free events; without ASan a checking allocator
 //                                 (head/tail canaries, always-moving realloc, poisoned quarantine, optional blocks
 //                                 that are 16- but not 32-byte aligned, which is all realloc promises)
-//   lock_acquire/lock_release/condition_variable_notify_all/thread_join (camera lock, streamer) and pcg32_random / sinf
+//   lock_acquire/lock_release/condition_variable_wait/condition_variable_notify_all/thread_join and pcg32_random / sinf
 //                              -> gates that park the streamer thread at a chosen point while the client calls set
 // Built also with -fsanitize=address: the ASan report is turned into a StrayAccess event by the error callback.
 #define _GNU_SOURCE
@@ -439,6 +439,17 @@ vh_cv_notify_all(struct condition_variable* cv)
     condition_variable_notify_all(cv);
 }
 void
+vh_cv_wait(struct condition_variable* cv, struct lock* l)
+{
+    // the client is about to sleep until the streamer makes progress (repaired simcam_set waits for the frame in
+    // flight): a streamer we parked must be let go, otherwise the harness deadlocks itself
+    if (!is_streamer() && parked) {
+        serialized = 1;
+        gate_release();
+    }
+    condition_variable_wait(cv, l);
+}
+void
 vh_thread_join(struct thread* t) // simcam_stop: the streamer must be able to run to its exit
 {
     gate_release();
@@ -494,6 +505,7 @@ quiet(int is_error, const char* file, int line, const char* function, const char
 static struct Camera* cam;
 static long n_hist = 0, n_steps = 0, n_mismatch = 0, n_frames = 0, n_parked[4] = { 0 }, n_serialized = 0, n_compared = 0;
 static int cur_hist = -1, cur_step = 0, cur_kind = 0;
+static unsigned hist_alarm_s = 20; // a history that takes longer is reported as a Hang event
 
 static void
 drift(const char* field, long long exp, long long got)
@@ -713,7 +725,7 @@ run_history(char* line)
     cur_kind = kind;
     cur_step = 0;
     ++n_hist;
-    alarm(20);
+    alarm(hist_alarm_s);
     last_iter_calls = -1;
     iter_calls = 0;
     emit("{\"e\":\"Open\",\"id\":%d,\"kind\":%d,\"avx\":%d,\"mis\":%d,\"asan\":%d}", id, kind, HAVE_AVX, misalign, HAVE_ASAN);
@@ -817,6 +829,8 @@ main(int argc, char** argv)
         return 2;
     int first = atoi(argv[3]);
     misalign = atoi(argv[4]);
+    if (argc > 5 && atoi(argv[5]) > 0)
+        hist_alarm_s = (unsigned)atoi(argv[5]);
     trace_fd = open(argv[2], first > 0 ? (O_WRONLY | O_APPEND | O_CREAT) : (O_WRONLY | O_TRUNC | O_CREAT), 0644);
     if (trace_fd < 0)
         return 2;
